@@ -552,6 +552,16 @@ func replay(b *Beh, useVM bool) *Fail {
 				return failAt(wantSteps[i], "state", fmt.Sprintf("after %s %s (log %d): model=%q runtime=%q", wantSteps[i].Op, formOf(wantSteps[i]), i, want[i], got[i]))
 			}
 		}
+		if r.Err != nil && strings.HasPrefix(r.Class, "external:") {
+			// the storage layer (atree) or the host refused: never a predicted outcome of the model
+			st := s
+			if len(got) < len(wantSteps) {
+				st = wantSteps[len(got)]
+			}
+			f := failAt(st, "spurious-failure", fmt.Sprintf("runtime failed with %s after %d of %d logs: %v", r.Class, len(got), len(want), firstErrLine(r.Err)))
+			f.Err = r.Class + ": " + firstErrLine(r.Err)
+			return f
+		}
 		if (r.Err != nil) != wantErr {
 			if r.Err != nil {
 				// name the step after which execution stopped
